@@ -339,14 +339,31 @@ type writeSet struct {
 	cells    map[string]bool
 	start    int // value of the fresh counter when the dry run began
 	allocSet map[string]bool
+	cellVals map[string]Val // dryCallee: a value (for sort and type) of each written cell
 }
 
 var reNum = regexp.MustCompile(`!([0-9]+)$`)
 
-// stableBase: a plain symbol introduced before the loop was entered.
+// stableBase: a reference term that denotes the same object before and after the code being summarised: a plain
+// symbol introduced before the dry run began, or an address computation (field address, no heap read) over such symbols.
 func (ws *writeSet) stableBase(b string) bool {
-	if b == "" || strings.ContainsAny(b, " ()") {
+	if b == "" {
 		return false
+	}
+	if strings.ContainsAny(b, " ()") {
+		if strings.Contains(b, "select") || strings.Contains(b, "H$") || strings.Contains(b, "H0$") || strings.Contains(b, "ite") {
+			return false
+		}
+		for _, tok := range strings.FieldsFunc(b, func(r rune) bool { return r == ' ' || r == '(' || r == ')' }) {
+			if m := reNum.FindStringSubmatch(tok); m != nil {
+				n := 0
+				fmt.Sscan(m[1], &n)
+				if n > ws.start {
+					return false
+				}
+			}
+		}
+		return true
 	}
 	if m := reNum.FindStringSubmatch(b); m != nil {
 		n := 0
@@ -356,9 +373,34 @@ func (ws *writeSet) stableBase(b string) bool {
 	return true
 }
 
+// freshRooted: a heap-free address term all of whose symbols introduced during the dry run are objects allocated
+// during it (e.g. the backing array of a slice made by the callee, a field address inside a fresh object).
+func (ws *writeSet) freshRooted(b string) bool {
+	if ws.allocSet == nil || b == "" || strings.Contains(b, "select") || strings.Contains(b, "H$") || strings.Contains(b, "H0$") || strings.Contains(b, "ite") {
+		return false
+	}
+	found := false
+	for _, tok := range strings.FieldsFunc(b, func(r rune) bool { return r == ' ' || r == '(' || r == ')' }) {
+		if m := reNum.FindStringSubmatch(tok); m != nil {
+			n := 0
+			fmt.Sscan(m[1], &n)
+			if n > ws.start {
+				if !ws.allocSet[tok] {
+					return false
+				}
+				found = true
+			}
+		}
+	}
+	return found
+}
+
 func (ws *writeSet) note(name, base string) {
 	if ws.allocSet != nil && ws.allocSet[base] && !ws.stableBase(base) {
 		// an object allocated inside the loop: invisible to (and distinct from) everything that existed before
+		return
+	}
+	if ws.freshRooted(base) {
 		return
 	}
 	ws.heaps[name] = true
@@ -366,6 +408,9 @@ func (ws *writeSet) note(name, base string) {
 		return
 	}
 	if !ws.stableBase(base) {
+		if os.Getenv("GOVC_DEBUG_WS") != "" {
+			fmt.Fprintf(os.Stderr, "  ws: %s written at unstable base %s\n", name, truncate(base, 300))
+		}
 		ws.all[name] = true
 		return
 	}
